@@ -129,7 +129,7 @@ func (r *ring) list() []string {
 		case x.op == "GetDepth":
 			out = append(out, fmt.Sprintf("#%d GetDepth() = %d", i, x.dep))
 		case x.op == "Requeue":
-			out = append(out, fmt.Sprintf("#%d Requeue(%s) [taken by %s]", i, clipB(x.b), x.note))
+			out = append(out, fmt.Sprintf("#%d Requeue(%s)", i, clipB(x.b)))
 		case x.b == nil:
 			out = append(out, fmt.Sprintf("#%d %s() = nil", i, x.op))
 		default:
@@ -217,10 +217,15 @@ func (s *stressRun) consumer() {
 	obs := s.obs
 	tr := s.trace
 	var (
-		next    int    // index of the first whole chunk not yet taken
-		front   []byte // copy of the element the consumer put back (it is at the front of the queue), nil if none
-		held    []byte // what the last successful dequeue returned and was not put back yet
-		heldOp  string
+		next int // index of the first whole chunk not yet taken
+		// copies of the elements the consumer put back and has not re-read yet; they are at the front of
+		// the queue, the most recent put-back (last of this slice) first
+		fronts [][]byte
+		// what the last successful dequeues returned and was not put back, oldest first (at most
+		// MaxHeld; older ones count as consumed). Put-backs take the newest one, which restores the
+		// stream order whatever the number of outstanding put-backs.
+		held    [][]byte
+		maxHeld = d.MaxHeld
 		scratch []byte
 		cops    int
 	)
@@ -258,38 +263,61 @@ func (s *stressRun) consumer() {
 		}
 		return "corrupt"
 	}
-	frontN := func() int64 {
-		if front != nil {
-			return 1
+	if maxHeld < 1 {
+		maxHeld = 1
+	}
+	frontN := func() int64 { return int64(len(fronts)) }
+	take := func(b []byte) {
+		if len(held) == maxHeld {
+			copy(held, held[1:])
+			held = held[:maxHeld-1]
 		}
-		return 0
+		held = append(held, b)
+	}
+	// expectFronts checks that b starts with the outstanding put-backs, the most recent first (all of
+	// them when all is set, else exactly the most recent one); returns the rest of b.
+	expectFronts := func(b []byte, all bool) ([]byte, string) {
+		for i := len(fronts) - 1; i >= 0; i-- {
+			if !bytes.HasPrefix(b, fronts[i]) {
+				var want []string
+				for j := len(fronts) - 1; j >= 0; j-- {
+					want = append(want, clipB(fronts[j]))
+				}
+				return nil, fmt.Sprintf("%d put-back element(s) are outstanding and must be re-read first, the most recent put-back first: %v; got %s", len(fronts), want, clipB(b))
+			}
+			b = b[len(fronts[i]):]
+			if !all {
+				break
+			}
+		}
+		return b, ""
 	}
 	for {
 		if s.abort.Load() {
 			return
 		}
-		if next == d.Chunks && front == nil && held == nil {
-			break
-		}
-		if next == d.Chunks && front == nil && held != nil {
+		if next == d.Chunks && len(fronts) == 0 {
 			// everything was obtained; nothing more to put back
-			held = nil
-			continue
+			break
 		}
 		x := r.pm()
 		switch {
-		case held != nil && x < d.ReqPm:
-			// put back what was just taken: all of it, or only its tail (the head counts as consumed)
-			back := held
-			if d.Tail && len(held) > 1 && r.pm() < 500 {
-				back = held[1+int(r.next()%uint64(len(held)-1)):]
+		case len(held) > 0 && x < d.ReqPm:
+			// put back the most recently taken chunk: all of it, or (when it is the only one held) only
+			// its tail, the head counting as consumed
+			back := held[len(held)-1]
+			if d.Tail && len(held) == 1 && len(back) > 1 && r.pm() < 500 {
+				back = back[1+int(r.next()%uint64(len(back)-1)):]
 				obs["ops_requeue_tail"]++
 			}
+			held = held[:len(held)-1]
 			s.q.Requeue(back)
-			front = append([]byte(nil), back...)
-			held = nil
+			fronts = append(fronts, append([]byte(nil), back...))
 			obs["ops_requeue"]++
-			tr.add(rec{op: "Requeue", b: back, note: heldOp})
+			if len(fronts) >= 2 {
+				obs["requeue_making_two_or_more_outstanding_putbacks"]++
+			}
+			tr.add(rec{op: "Requeue", b: back})
 			p.prog.Add(1)
 		case x < d.ReqPm+d.DepthPm:
 			var lo, hi int64 = 0, -1
@@ -313,8 +341,8 @@ func (s *stressRun) consumer() {
 				obs["sum_of_max_depth_seen"] = dep
 			}
 			if dep < lo || (hi >= 0 && dep > hi) || dep > int64(d.Chunks-next)+frontN() {
-				s.report("c20/depth-out-of-bounds:consumer", "consumer: GetDepth() = %d, but the queue held between %d and %d elements during the call (whole chunks taken so far: %d, put-back element at the front: %v)\nlast consumer operations:\n%s",
-					dep, lo, hi, next, front != nil, joinLines(tr.list()))
+				s.report("c20/depth-out-of-bounds:consumer", "consumer: GetDepth() = %d, but the queue held between %d and %d elements during the call (whole chunks taken so far: %d, put-back elements at the front: %d)\nlast consumer operations:\n%s",
+					dep, lo, hi, next, len(fronts), joinLines(tr.list()))
 				return
 			}
 			tr.add(rec{op: "GetDepth", dep: int(dep)})
@@ -333,9 +361,9 @@ func (s *stressRun) consumer() {
 			if b == nil {
 				obs["ops_dequeueall_nil"]++
 				tr.add(rec{op: "DequeueAll"})
-				if front != nil || lo > 0 {
-					s.report("c20/empty-on-nonempty:dequeueall", "DequeueAll() returned nil although the queue held at least %d element(s) during the whole call (put-back element at the front: %v, chunks whose Enqueue had returned before the call and not yet taken: %d)\nlast consumer operations:\n%s",
-						lo+frontN(), front != nil, lo, joinLines(tr.list()))
+				if len(fronts) > 0 || lo > 0 {
+					s.report("c20/empty-on-nonempty:dequeueall", "DequeueAll() returned nil although the queue held at least %d element(s) during the whole call (put-back elements at the front: %d, chunks whose Enqueue had returned before the call and not yet taken: %d)\nlast consumer operations:\n%s",
+						lo+frontN(), len(fronts), lo, joinLines(tr.list()))
 					return
 				}
 				if pd && next < d.Chunks {
@@ -343,20 +371,22 @@ func (s *stressRun) consumer() {
 						d.Chunks, next, next, joinLines(tr.list()))
 					return
 				}
-				held = nil
 				runtime.Gosched()
 				continue
 			}
 			tr.add(rec{op: "DequeueAll", b: b})
 			rest := b
 			minWhole := 1
-			if front != nil {
-				if !bytes.HasPrefix(b, front) {
-					s.report("c20/stream:dequeueall-putback-not-first", "DequeueAll(): the put-back element %s must be re-read first, got %s\nlast consumer operations:\n%s", clipB(front), clipB(b), joinLines(tr.list()))
+			if len(fronts) > 0 {
+				var why string
+				if rest, why = expectFronts(b, true); why != "" {
+					s.report("c20/stream:dequeueall-putback-not-first", "DequeueAll(): %s\nlast consumer operations:\n%s", why, joinLines(tr.list()))
 					return
 				}
-				rest = b[len(front):]
 				minWhole = 0
+				if len(fronts) >= 2 {
+					obs["dequeueall_with_two_or_more_outstanding_putbacks"]++
+				}
 			}
 			m, why := expectWhole(rest, minWhole, -1)
 			if m < 0 {
@@ -371,8 +401,8 @@ func (s *stressRun) consumer() {
 				obs["dequeueall_multi"]++
 			}
 			next += m
-			front = nil
-			held, heldOp = b, "DequeueAll"
+			fronts = fronts[:0]
+			take(b)
 			obs["bytes_consumed_gross"] += int64(len(b))
 			if d.Bounds {
 				s.consNext.Store(int64(next))
@@ -389,9 +419,9 @@ func (s *stressRun) consumer() {
 			if b == nil {
 				obs["ops_dequeue_nil"]++
 				tr.add(rec{op: "Dequeue"})
-				if front != nil || lo > 0 {
-					s.report("c20/empty-on-nonempty:dequeue", "Dequeue() returned nil although the queue held at least %d element(s) during the whole call (put-back element at the front: %v, chunks whose Enqueue had returned before the call and not yet taken: %d)\nlast consumer operations:\n%s",
-						lo+frontN(), front != nil, lo, joinLines(tr.list()))
+				if len(fronts) > 0 || lo > 0 {
+					s.report("c20/empty-on-nonempty:dequeue", "Dequeue() returned nil although the queue held at least %d element(s) during the whole call (put-back elements at the front: %d, chunks whose Enqueue had returned before the call and not yet taken: %d)\nlast consumer operations:\n%s",
+						lo+frontN(), len(fronts), lo, joinLines(tr.list()))
 					return
 				}
 				if pd && next < d.Chunks {
@@ -399,17 +429,19 @@ func (s *stressRun) consumer() {
 						d.Chunks, next, next, joinLines(tr.list()))
 					return
 				}
-				held = nil
 				runtime.Gosched()
 				continue
 			}
 			tr.add(rec{op: "Dequeue", b: b})
-			if front != nil {
-				if !bytes.Equal(b, front) {
-					s.report("c20/stream:dequeue-putback-not-first", "Dequeue(): the put-back element %s must be re-read first, got %s\nlast consumer operations:\n%s", clipB(front), clipB(b), joinLines(tr.list()))
+			if len(fronts) > 0 {
+				if rest, why := expectFronts(b, false); why != "" || len(rest) != 0 {
+					s.report("c20/stream:dequeue-putback-not-first", "Dequeue(): %s (expected exactly the most recent put-back)\nlast consumer operations:\n%s", why, joinLines(tr.list()))
 					return
 				}
-				front = nil
+				if len(fronts) >= 2 {
+					obs["dequeue_with_two_or_more_outstanding_putbacks"]++
+				}
+				fronts = fronts[:len(fronts)-1]
 			} else {
 				m, why := expectWhole(b, 1, 1)
 				if m < 0 {
@@ -418,7 +450,7 @@ func (s *stressRun) consumer() {
 				}
 				next++
 			}
-			held, heldOp = b, "Dequeue"
+			take(b)
 			obs["bytes_consumed_gross"] += int64(len(b))
 			if d.Bounds {
 				s.consNext.Store(int64(next))
